@@ -20,15 +20,22 @@ def sortNat (l : List Nat) : List Nat :=
 
 def step (st : State) (toks : List String) : State × String :=
   match toks with
-  | ["race", k, _seed, _maxdelay, _threads] =>
+  | "race" :: k :: _seed :: _maxdelay :: _threads :: rest =>
     match k.toNat? with
     | some k =>
+      let names := (rest.head?.bind (·.toNat?)).getD 1
       let tasks := List.range k
       -- worst case for the pinned code: everybody looks up before anybody inserts
       let schedule := tasks ++ tasks ++ tasks ++ tasks
-      let g := run false schedule
       let all := fmt tasks
-      (st, s!"acked {all} set {fmt (sortNat (visible g))} stored {all}")
+      if names ≤ 1 then
+        let g := run false schedule
+        (st, s!"acked {all} set {fmt (sortNat (visible g))} stored {all}")
+      else
+        -- several fresh keyspaces first used at once (`Group.stepN`, Props/C18b): the union of what a lookup finds under each name
+        let g := runN (fun t => t % names) schedule
+        let seen := (List.range (min names k)).flatMap (visibleN g)
+        (st, s!"acked {all} set {fmt (sortNat seen)} stored {all}")
     | none => (st, "bad-op")
   | ["startup-race"] =>
     -- one_state at start-up: a write acknowledged while the store is still loading must be in the state peers obtain
